@@ -45,7 +45,7 @@ Definition flip_to_play (include_sentinel : bool) (l : list Z) : list Z :=
 Definition padded (w : nat) (e : list Z) : list Z := e ++ repeat 0 (w - length e).
 Definition mask_of (w : nat) (e : list Z) : list bool :=
   repeat true (length e) ++ repeat false (w - length e).
-Definition max_len (encs : list (list Z)) : nat := list_max (map length encs).
+Definition max_len (encs : list (list Z)) : nat := list_max (map (@length Z) encs).
 (* the entries of a row that its mask marks *)
 Fixpoint select (m : list bool) (r : list Z) : list Z :=
   match m, r with
